@@ -55,6 +55,25 @@ def eq_pair(sk, *xs):
     return True
 
 
+def eq_default(sk, *xs):
+    """trees with different leaf defaults: equality still means 'same non-default values at the same points' (each side's own default)"""
+    na, nb, da, db = sk["na"], sk["nb"], sk["da"], sk["db"]
+    ac, av = list(xs[:na]), list(xs[na:2 * na])
+    bc, bv = list(xs[2 * na:2 * na + nb]), list(xs[2 * na + nb:2 * na + 2 * nb])
+    a = Fiber(ac, av, default=da)
+    b = Fiber(bc, bv, default=db)
+    ca, cb = content(a, da), content(b, db)
+    same = ca == cb
+    if (a == b) != same or (b == a) != same:
+        return fail("== with leaf defaults %r / %r is %s, content equality is %s" % (da, db, a == b, same))
+    if a.isEmpty() != (len(ca) == 0) or a.countValues() != len(ca):
+        return fail("isEmpty / countValues with a non-zero default")
+    e = Fiber()
+    if (len(ca) == 0 and len(cb) == 0) and not ((a == e) == (e == b)):
+        return fail("two empty trees disagree about equality with the empty fiber")
+    return True
+
+
 def eq_triple(sk, *xs):
     a, pos, _ = build_tree(sk["a"], xs)
     b, pos, _ = build_tree(sk["b"], xs, pos)
@@ -113,6 +132,11 @@ def obligations(tier):
                 continue
             ps, pre = _pp([a, b], "xy")
             obs.append(Ob("pair/%s-%s" % (_nm(a), _nm(b)), "eq_pair", dict(a=a, b=b), ps, pre))
+    for na, nb in [(1, 1), (2, 2), (2, 1), (0, 1)]:
+        for da, db in [(7, 0), (0, 7), (7, 7)]:
+            an, bn = names("a", na), names("b", nb)
+            obs.append(Ob("default/%dx%d/%d-%d" % (na, nb, da, db), "eq_default", dict(na=na, nb=nb, da=da, db=db),
+                          an + names("u", na) + bn + names("w", nb), chain_pre(an) + chain_pre(bn)))
     for a, b in [([1, 0], [1]), ([1], [1, 1])]:
         ps, pre = _pp([a, b], "xy")
         obs.append(Ob("pair-owned/%s-%s" % (_nm(a), _nm(b)), "eq_pair", dict(a=a, b=b, owned=True, depth=2), ps, pre))
